@@ -67,6 +67,7 @@ def ops():
         "getitem_bool_list": lambda x: x[[True, False, True][: x.shape[0]]], "getitem_bool_numpy": lambda x: x[np.array([False, True, True][: x.shape[0]])], "getitem_bool_tuple": lambda x: x[torch.tensor([False, True, True][: x.shape[0]]), ...],
         "getitem_neg_list": lambda x: x[[-1, 0]], "getitem_single_list": lambda x: x[[1]], "getitem_int_tuple": lambda x: x[(1,)],
         # selection along batch dim
+        "narrow_neg_batch_dim": lambda x: x.narrow(-x.ndim, 1, 2), "torch_narrow_neg_batch_dim": lambda x: torch.narrow(x, -x.ndim, 1, 1), "narrow_neg_channel_dim": lambda x: x.narrow(1 - x.ndim, 0, 1), "narrow_neg_spatial": lambda x: x.narrow(-2, 1, 2),
         "narrow0": lambda x: x.narrow(0, 1, 2), "narrow_last": lambda x: x.narrow(-1, 0, 2), "select0": lambda x: x.select(0, 1), "select1": lambda x: x.select(1, 0),
         "index_select0": lambda x: x.index_select(0, idx(x, 2, 0)), "index_select0_all": lambda x: x.index_select(0, idx(x, 2, 0, 1)), "index_select1": lambda x: x.index_select(1, idx(x, 0)),
         "torch_index_select0": lambda x: torch.index_select(x, 0, idx(x, 1, 2)),
